@@ -10,6 +10,7 @@ mod c07;
 mod c08;
 mod c19;
 mod pipe;
+mod scan;
 mod util;
 
 use serde_json::json;
@@ -46,6 +47,8 @@ fn main() {
                 "C01" => c01::record(&mut rec, seed, thorough),
                 "C05" => c05::record(&mut rec, seed, thorough),
                 "C07" => c07::record(&mut rec, seed, thorough),
+                "C02" => scan::record_c02(&mut rec, seed, thorough),
+                "C03" => scan::record_c03(&mut rec, seed, thorough),
                 "C08" => c08::record(&mut rec, seed, thorough),
                 _ => {
                     eprintln!("unknown property {}", prop);
